@@ -25,6 +25,10 @@ type RSend struct {
 	AfterUs int  `json:"after_us"`
 	Tag     int  `json:"tag"`
 	Fail    bool `json:"fail,omitempty"`
+	// Bad: the application hands Send a message that cannot be put into a frame (an L_Data.ind without a transport
+	// unit: the encoder panics inside the socket's Send) and recovers from the panic, as a server's request handler
+	// does; the client must be as usable afterwards as before
+	Bad bool `json:"bad,omitempty"`
 }
 
 // RNet is one scripted event from the network.
@@ -257,6 +261,26 @@ func (s *RSim) send(lane, tag int) error {
 	return err
 }
 
+func (s *RSim) sendBad(lane, tag int) {
+	s.gate.RLock()
+	atomic.AddInt32(&s.inFlight, 1)
+	s.add(REv{K: "send>", Tag: tag, Lane: lane, Note: "unsendable"})
+	es := func() (es string) {
+		defer func() {
+			if r := recover(); r != nil {
+				es = fmt.Sprintf("panic: %v", r)
+			}
+		}()
+		if err := s.R.Send(&cemi.LDataInd{}); err != nil {
+			return err.Error()
+		}
+		return "unsendable message accepted"
+	}()
+	s.add(REv{K: "send<", Tag: tag, Lane: lane, Err: es})
+	atomic.AddInt32(&s.inFlight, -1)
+	s.gate.RUnlock()
+}
+
 func (s *RSim) readOne(d time.Duration) (got, closed bool) {
 	var tm <-chan time.Time
 	if d >= 0 {
@@ -395,7 +419,14 @@ func (s *RSim) Run() *RResult {
 			for _, st := range steps {
 				time.Sleep(us(st.AfterUs))
 				done := make(chan struct{})
-				go func() { s.send(i+1, st.Tag); close(done) }()
+				go func() {
+					if st.Bad {
+						s.sendBad(i+1, st.Tag)
+					} else {
+						s.send(i+1, st.Tag)
+					}
+					close(done)
+				}()
 				select {
 				case <-done:
 				case <-time.After(limit):
